@@ -1,9 +1,10 @@
 // c15: traversal controls only restrict a walk.
 // Record: id, "c15", selector, root, blocks, control, observation
-//   selector / root: values in the token language; blocks: cidhex=value;...  (as the loader returns them)
-//   control: u | nb=N | lb=N | st=<.hex segments> | once | skip=cid+cid | '&'-joined combinations
-//   observation: "compile:<err|panic>" or  U<trace>#R<trace>  where U is the unrestricted WalkAdv trace of
-//   the same selector and graph and R the trace under the control (node contents as FNV-32 digests).
+//
+//	selector / root: values in the token language; blocks: cidhex=value;...  (as the loader returns them)
+//	control: u | nb=N | lb=N | st=<.hex segments> | once | skip=cid+cid | '&'-joined combinations
+//	observation: "compile:<err|panic>" or  U<trace>#R<trace>  where U is the unrestricted WalkAdv trace of
+//	the same selector and graph and R the trace under the control (node contents as FNV-32 digests).
 package main
 
 import (
@@ -179,7 +180,20 @@ func mustVal(s string) *lib.Val {
 }
 
 // fixed corpus: a 3-block graph with a repeated link, walked by the usual selectors
+func witnesses(out *lib.Out) {
+	for i, tc := range lib.TravWitnesses() {
+		env, err := tc.Open()
+		if err != nil || env.SelErr != nil {
+			panic("witness")
+		}
+		uevs, uclass := env.Run(lib.NoCtl(), false)
+		utext := lib.TraceText(uevs, uclass, true)
+		out.Case(fmt.Sprintf("k%d.u", i), "c15", tc.Sel.Text(), tc.Root.Text(), tc.BlocksText(), "u", "U"+utext+"#R"+utext)
+	}
+}
+
 func corpus(out *lib.Out, rng *lib.Rng, thorough bool) {
+	witnesses(out)
 	gen := func() *lib.TravCase {
 		tc := &lib.TravCase{}
 		store := lib.NewTravStore()
@@ -208,7 +222,7 @@ func corpus(out *lib.Out, rng *lib.Rng, thorough bool) {
 	for i, s := range sels {
 		tc := gen()
 		tc.Sel = mustVal(s)
-		runPair(out, rng, fmt.Sprintf("k%d", i), tc, thorough)
+		runPair(out, rng, fmt.Sprintf("k%d", 10+i), tc, thorough)
 	}
 }
 
@@ -218,6 +232,7 @@ func main() {
 	defer out.Close()
 	thorough := fl.Tier == "thorough"
 	if fl.Replay != "" {
+		witnesses(out)
 		for _, line := range lib.ReadLines(fl.Replay) {
 			f := strings.Split(line, "\t")
 			if len(f) < 6 || f[1] != "c15" {
@@ -249,7 +264,7 @@ func main() {
 	if n == 0 {
 		n = 150
 		if thorough {
-			n = 6000
+			n = 15000
 		}
 	}
 	rng := lib.NewRng(fl.Seed)
